@@ -274,6 +274,40 @@ Section TTL.
     unfold fast_path in Hf. by apply Nat.eqb_eq in Hf.
   Qed.
 
+  (* the in-place loop of the slow path computes the functional filter: writes go to positions below the
+     read cursor, so no slot is overwritten before it is read *)
+  Lemma compact_inplace_spec it : ∀ fuel i n arr,
+    (n < i)%nat → fuel = (length arr - i)%nat →
+    let '(arr', n') := compact_inplace it fuel i n arr in
+    take n' arr' = take n arr ++ keep_mapped it i (drop i arr).
+  Proof.
+    induction fuel as [|f IH]; intros i n arr Hni Hf; simpl.
+    - rewrite drop_ge by lia. simpl. by rewrite app_nil_r.
+    - destruct (arr !! i) as [e|] eqn:Hi.
+      2: { apply lookup_ge_None_1 in Hi. lia. }
+      pose proof (lookup_lt_Some _ _ _ Hi) as Hlt.
+      rewrite (drop_S _ _ _ Hi). simpl.
+      assert (Hskip : let '(arr', n') := compact_inplace it f (S i) n arr in
+                      take n' arr' = take n arr ++ keep_mapped it (S i) (drop (S i) arr)).
+      { apply IH; lia. }
+      destruct (it !! ekey e) as [idx|]; [|exact Hskip].
+      destruct (Nat.eqb idx i); [|exact Hskip].
+      specialize (IH (S i) (S n) (<[n:=e]> arr) ltac:(lia) ltac:(rewrite insert_length; lia)).
+      destruct (compact_inplace it f (S i) (S n) (<[n:=e]> arr)) as [arr' n'].
+      rewrite IH. rewrite drop_insert_gt by lia.
+      assert (Hn : <[n:=e]> arr !! n = Some e) by (apply list_lookup_insert; lia).
+      rewrite (take_S_r _ _ _ Hn), take_insert by lia. by rewrite <-app_assoc.
+  Qed.
+
+  Lemma slow_inplace_keep_mapped s :
+    (0 < head s)%nat →
+    slow_inplace s = keep_mapped (items s) (head s) (drop (head s) (order s)).
+  Proof.
+    intros Hh. unfold slow_inplace.
+    pose proof (compact_inplace_spec (items s) (length (order s) - head s) (head s) 0 (order s) Hh eq_refl) as H.
+    destruct (compact_inplace _ _ _ _ _) as [arr n]. by rewrite H, take_0.
+  Qed.
+
   Lemma maybe_compact_eq s :
     WF s → compact_guard s = false →
     let kept := keep_mapped (items s) (head s) (drop (head s) (order s)) in
